@@ -13,6 +13,12 @@
 //                                                  array through the real writer, 2 leading spaces, 3 BOM + leading spaces; the padding is
 //                                                  sized so that the reader's 16382-byte chunk edge falls before byte (pos mod (len+1)) of the body
 //              sweep fmt mode padkind step         the same for EVERY position of the body (step 1) -- the sliding-prefix sweep
+//   hostile kind pos  (optional, very first op): before EVERY decode/read of the case's round trips, the static Json::decode /
+//                     Xdl::decode is called on the same thread with a malformed text derived from the text about to be
+//                     decoded (kind 0 a prefix, 1 a prefix cut inside a \uXXXX escape, 2 a lone high-surrogate escape, 3 cut
+//                     inside a string, 4 inside a number, 5 inside a comment, 6 unbalanced brackets, 7 bad tokens); its
+//                     result is ignored (that is C06) -- the round trip is judged exactly as without it: its outcome must
+//                     not depend on what was decoded before
 //   without a first op: in-memory round trip in all modes (Json x 4, and Xdl x 4 when all keys are identifiers)
 #include "common/vfrc.h"
 #include "common/ref_json.h"
@@ -23,6 +29,7 @@
 #include <cmath>
 #include <cfloat>
 #include <climits>
+#include <algorithm>
 
 using namespace asl;
 
@@ -566,6 +573,73 @@ static std::string encode(const Var& v, int fmt, int mode)
 	return std::string(*e, (size_t)e.length());
 }
 
+// ---- hostile decodes interleaved with the round trips (state must not leak from one decode() call into the next)
+
+struct Hostile {
+	bool on = false;
+	int kind = 0;
+	long pos = 0;
+	long calls = 0;
+};
+static Hostile g_hostile;
+
+static std::string hostile_text(const std::string& enc, int kind, long pos)
+{
+	size_t len = enc.size();
+	switch (kind) {
+	case 0: return enc.substr(0, (size_t)pos % (len + 1));
+	case 1: { // the text cut off inside a \uXXXX escape (after \u, \u0, \u00 or \u000)
+		std::vector<size_t> at;
+		for (size_t i = 0; i + 1 < len; i++)
+			if (enc[i] == '\\' && enc[i + 1] == 'u')
+				at.push_back(i);
+		if (at.empty())
+			return std::string("[\"ab\\u") + std::string("00a7").substr(0, (size_t)pos % 4);
+		size_t i = at[(size_t)(pos / 4) % at.size()];
+		size_t cut = i + 2 + (size_t)pos % 4;
+		return enc.substr(0, cut < len ? cut : len);
+	}
+	case 2: { // a first surrogate that never gets its second half
+		static const char* v[] = {"\"\\ud83d\"", "[\"\\udbff\"]", "\"\\ud83dabc\"", "{\"\\ud800\":1}", "[\"x\",\"\\uD83D", "\"\\ud83d\\n\""};
+		return v[(size_t)pos % 6];
+	}
+	case 3: { // cut inside a string
+		size_t q = enc.find('"');
+		if (q == std::string::npos)
+			return "[\"abc";
+		size_t cut = q + 1 + (size_t)pos % 3;
+		return enc.substr(0, cut < len ? cut : len);
+	}
+	case 4: {
+		static const char* v[] = {"[-12.5e", "-", "[1.", "1e+", "{\"a\":-", "[0.5E-"};
+		return v[(size_t)pos % 6];
+	}
+	case 5: {
+		static const char* v[] = {"[1, /* open", "{a=1 // x", "/", "[1,2] /*", "{a=[1,2] /* * ", "[Y,N //"};
+		return v[(size_t)pos % 6];
+	}
+	case 6: {
+		static const char* v[] = {"[[{", "]", "{\"a\":[1,2}", "[1,2]]", "{{", "A{b=[1,{c=2}"};
+		return v[(size_t)pos % 6];
+	}
+	default: {
+		static const char* v[] = {"tru", "[nul]", "\"\\q\"", "{\"a\" 1}", "[1,,2]", "\"\\u12\""};
+		return v[(size_t)pos % 6];
+	}
+	}
+}
+
+// called right before a decode/read of text `enc`; nothing is asserted about the hostile decode itself
+static void hostile_decode(const std::string& enc)
+{
+	if (!g_hostile.on)
+		return;
+	std::string h = nonul(hostile_text(enc, g_hostile.kind, g_hostile.pos + g_hostile.calls));
+	Var v = ((g_hostile.pos >> 4) + g_hostile.calls) & 1 ? Xdl::decode(String(h.c_str())) : Json::decode(String(h.c_str()));
+	(void)v.ok();
+	g_hostile.calls++;
+}
+
 static void mem_roundtrip(const MV& m, const Traits& t)
 {
 	Var v = build(m);
@@ -577,6 +651,7 @@ static void mem_roundtrip(const MV& m, const Traits& t)
 			bool simple = (mode & 2) != 0;
 			std::string text = encode(v, fmt, mode);
 			std::string tag = std::string(fmt ? "Xdl/" : "Json/") + MODE_NAME[mode];
+			hostile_decode(text);
 			Var back = fmt == 0 ? Json::decode(String(text.c_str())) : Xdl::decode(String(text.c_str()));
 			VF_CHECK(back.ok(), tag, ": decoder rejects the encoder's own output ", vf::show(text, 300));
 			try {
@@ -669,6 +744,7 @@ static void file_roundtrip(const MV& m, const Var& v, int fmt, int mode, int pad
 		w << Var(String(ps.c_str())) << v;
 		bool ok = mode == 4 ? (fmt == 0 ? Json::write(w, file) : Xdl::write(w, file)) : (fmt == 0 ? Json::write(w, file, Json::Mode(mode)) : Xdl::write(w, file, mode));
 		VF_CHECK(ok, tag, ": write failed");
+		hostile_decode("[\"pad\\u0007\"]");
 		Var r = fmt == 0 ? Json::read(file) : Xdl::read(file);
 		struct stat st;
 		size = stat(path.c_str(), &st) == 0 ? (size_t)st.st_size : 0;
@@ -687,6 +763,7 @@ static void file_roundtrip(const MV& m, const Var& v, int fmt, int mode, int pad
 		std::string data = (padkind == 3 ? "\xef\xbb\xbf" : "") + std::string((size_t)pad, ' ') + body;
 		raw_write(path, data);
 		size = data.size();
+		hostile_decode("[\"pad\\u0007\"]");
 		back = fmt == 0 ? Json::read(file) : Xdl::read(file);
 		unlink(path.c_str());
 		VF_CHECK(back.ok(), tag, ": read rejects a file of ", size, " bytes = ", pad, " spaces + ", vf::show(body, 200));
@@ -696,6 +773,7 @@ static void file_roundtrip(const MV& m, const Var& v, int fmt, int mode, int pad
 		VF_CHECK(ok, tag, ": write failed");
 		struct stat st;
 		size = stat(path.c_str(), &st) == 0 ? (size_t)st.st_size : 0;
+		hostile_decode("[\"pad\\u0007\"]");
 		back = fmt == 0 ? Json::read(file) : Xdl::read(file);
 		unlink(path.c_str());
 		VF_CHECK(back.ok(), tag, ": read rejects the written file of ", size, " bytes (text ", vf::show(encode(v, fmt, emode), 100), ")");
@@ -723,15 +801,23 @@ void vf_run_case(const std::string& part, const vf::Case& c)
 	(void)part;
 	size_t pos = 0;
 	const vf::Op* head = 0;
-	if (!c.ops.empty() && (c.ops[0].name == "file" || c.ops[0].name == "sweep")) {
-		head = &c.ops[0];
+	g_hostile = Hostile();
+	if (!c.ops.empty() && c.ops[0].name == "hostile") {
+		g_hostile.on = true;
+		g_hostile.kind = (int)(((c.ops[0].i(0) % 8) + 8) % 8);
+		g_hostile.pos = c.ops[0].i(1) < 0 ? -(c.ops[0].i(1) + 1) : c.ops[0].i(1);
 		pos = 1;
+	}
+	if (pos < c.ops.size() && (c.ops[pos].name == "file" || c.ops[pos].name == "sweep")) {
+		head = &c.ops[pos];
+		pos++;
 	}
 	MV m = read_tree(c.ops, pos, false, 0);
 	Traits t;
 	scan(m, t, 1);
 	if (!head) {
 		mem_roundtrip(m, t);
+		vf::stats().cls("hostile.decodes_before_a_round_trip_decode", (uint64_t)g_hostile.calls);
 		return;
 	}
 	int fmt = (int)(head->i(0) & 1);
@@ -758,6 +844,7 @@ void vf_run_case(const std::string& part, const vf::Case& c)
 		for (long p = lo; p <= hi; p += step)
 			file_roundtrip(m, v, fmt, mode, padkind, p, fs);
 	}
+	vf::stats().cls("hostile.decodes_before_a_file_read", (uint64_t)g_hostile.calls);
 	vf::stats().cls("files.written_and_read", (uint64_t)fs.files);
 	vf::stats().cls("files.chunk_edge_inside_or_next_to_body", (uint64_t)fs.straddle);
 	vf::stats().cls("files.longer_than_one_chunk", (uint64_t)fs.multi_chunk);
@@ -996,14 +1083,32 @@ MV pick_root(int maxnodes, int maxstr)
 
 void classify_tree(const vf::Case& c, const char* part)
 {
-	size_t pos = !c.ops.empty() && (c.ops[0].name == "file" || c.ops[0].name == "sweep") ? 1 : 0;
+	size_t pos = 0;
+	bool hostile = !c.ops.empty() && c.ops[0].name == "hostile";
+	if (hostile)
+		pos = 1;
+	if (pos < c.ops.size() && (c.ops[pos].name == "file" || c.ops[pos].name == "sweep"))
+		pos++;
+	bool filecase = pos > (hostile ? 1u : 0u);
 	MV m = read_tree(c.ops, pos, false, 0);
 	Traits t;
 	scan(m, t, 1);
 	auto& st = vf::stats();
+	if (hostile) {
+		static const char* HK[] = {"prefix", "cut_inside_u_escape", "lone_high_surrogate", "cut_inside_string", "cut_inside_number", "open_comment", "unbalanced_brackets", "bad_token"};
+		st.cls(std::string(part) + ".hostile." + HK[((c.ops[0].i(0) % 8) + 8) % 8]);
+		st.cls(std::string(part) + ".hostile_cases");
+		// the first string in document order starts with a control character that the encoder writes as \u00XX
+		const MV* f = &m;
+		while (f->k == MV::Arr && !f->kids.empty())
+			f = &f->kids[0];
+		auto ctl = [](const std::string& x) { return !x.empty() && (unsigned char)x[0] < 0x20 && !strchr("\n\r\t\f", x[0]); };
+		if ((f->k == MV::Str && ctl(f->s)) || (f->k == MV::Obj && !f->keys.empty() && ctl(*std::min_element(f->keys.begin(), f->keys.end()))))
+			st.cls(std::string(part) + ".hostile_and_first_string_starts_with_control_char");
+	}
 	std::string p = std::string(part) + ".";
 	bool nt = t.ctrl || t.quote || t.bslash || t.slash || t.nonint_dbl || t.flt || t.depth >= 3;
-	if (nt || pos == 1)
+	if (nt || filecase)
 		st.nt(vf::fnv(vf::serialize(c)));
 	auto cl = [&](bool b, const char* name) {
 		if (b)
@@ -1039,9 +1144,45 @@ void classify_tree(const vf::Case& c, const char* part)
 
 } // namespace
 
-static vf::Case tree_case(const MV& m, const vf::Op* head)
+// in 1/4 of the cases: a hostile op, and in 2/3 of those the tree is put behind a first string that starts with a control character
+static MV maybe_hostile(MV m, vf::Op& h, bool& on)
+{
+	using namespace rc;
+	on = *vf::irange<int>(0, 3) == 0;
+	if (!on)
+		return m;
+	h = vf::Op("hostile", {*gen::weightedElement<int>({{2, 0}, {5, 1}, {5, 2}, {1, 3}, {1, 4}, {1, 5}, {1, 6}, {1, 7}}), *vf::irange<int>(0, 4000)});
+	if (*vf::irange<int>(0, 2) != 0) {
+		MV s;
+		s.k = MV::Str;
+		s.how = *vf::irange<int>(0, 1);
+		s.s = std::string(1, (char)*gen::elementOf(std::vector<int>{1, 2, 7, 8, 11, 14, 27, 31})) + *gen::elementOf(std::vector<std::string>{"", "a", "bell", "12345678"});
+		int shape = *vf::irange<int>(0, 3);
+		if (shape == 0)
+			return s; // the string alone
+		MV w;
+		if (shape == 3) { // as the (bytewise smallest, hence first) key
+			w.k = MV::Obj;
+			w.keys.push_back(s.s);
+			w.kids.push_back(m);
+			return w;
+		}
+		w.k = MV::Arr;
+		w.kids.push_back(s);
+		w.kids.push_back(m);
+		return w;
+	}
+	return m;
+}
+
+static vf::Case tree_case(const MV& m0, const vf::Op* head, bool allow_hostile = true)
 {
 	vf::Case c;
+	vf::Op h;
+	bool on = false;
+	MV m = allow_hostile ? maybe_hostile(m0, h, on) : m0;
+	if (on)
+		c.ops.push_back(h);
 	if (head)
 		c.ops.push_back(*head);
 	write_tree(m, c, 0);
@@ -1157,7 +1298,7 @@ void vf_search(const vf::Args& a)
 					if ((int)(idx % (uint64_t)a.workers) != a.worker) // the workers split the enumeration
 						continue;
 					vf::Op head("file", {fmt, mode, 0, 0});
-					vf::Case c = tree_case(m, &head);
+					vf::Case c = tree_case(m, &head, false);
 					if (!vf::runner().run("tiny", c))
 						return;
 					n++;
